@@ -274,6 +274,35 @@ def mk_for(p, body):
             "shape": "for/%s%s%s" % (base_kind(p["x"]), "/filter" if p["cond"] is not None else "", "/nested" if nested else "")}
 
 
+def mk_for_lambda(p, body, how):
+    """The for-phrase statement inside a block lambda passed to an OVERLOADED function (the lambda body may be compiled
+    once per candidate overload; the loop must still be lowered once).  how: "second" = resolved by the second overload,
+    "first" = by the first one; "comma" = `for v <- x, cond` spelling of the filter."""
+    c = mk_for(p, body)
+    loop_s = "\n".join("\t" + l for l in c["sugar"].splitlines()[:-1])
+    loop_d = "\n".join("\t" + l for l in c["doc"].splitlines()[:-1])
+    if how == "comma":
+        loop_s = loop_s.replace(" if ", ", ", 1)
+    arg = '"tag"' if how == "first" else "1"
+    direct = ("visitTagged(func(x int) {\n%s\n\t}, \"tag\")" if how == "first" else "visitTimes(func(x float64) {\n%s\n\t}, 1)")
+    sugar = "\tvisit(x => {\n%s\n\t}, %s)\n\treturn \"-\"\n" % (loop_s, arg)
+    doc = "\t" + direct % loop_d + "\n\treturn \"-\"\n"
+    return {"sugar": sugar, "doc": doc, "model": c["model"], "shape": c["shape"] + "/in-overloaded-lambda"}
+
+
+def lambda_cases():
+    P = lambda key, val, x, cond=None: {"key": key, "val": val, "x": x, "cond": cond}
+    odd = lambda v: ("pb", 1, ("bin", "=", ("bin", "%", V(v), ("i", 2)), ("i", 1)))
+    out = []
+    for how in ("second", "first", "comma"):
+        out += [mk_for_lambda(P(None, "i", ("range", 0, 6, 1), odd("i")), V("i"), how),
+                mk_for_lambda(P(None, "i", ("range", 1, 9, 3), ("pb", 2, ("bin", ">", ("p", 3, V("i")), ("i", 1)))), ("bin", "*", V("i"), ("i", 2)), how),
+                mk_for_lambda(P(None, "x", ("xs",), odd("x")), V("x"), how),
+                mk_for_lambda(P("i", "x", ("pl", 4, ("ys",)), ("pb", 1, ("bin", ">", V("x"), V("i")))), ("bin", "+", V("i"), V("x")), how),
+                mk_for_lambda(P(None, "i", ("range", 0, 4, 1)), ("p", 5, V("i")), how)]
+    return out
+
+
 def mk_send(es):
     sugar = "\ta := []int{1, 2}\n\ta <- %s\n\treturn showL(a)\n" % ", ".join(x_go(e, ()) for e in es)
     doc = "\ta := []int{1, 2}\n\ta = append(a, %s)\n\treturn showL(a)\n" % ", ".join(x_go(e, ()) for e in es)
@@ -596,7 +625,7 @@ def run(ctx):
     open(os.path.join(d, "go.mod"), "w").write(gomod(vlib.REPO))
     shutil.copy(os.path.join(vlib.REPO, "go.sum"), os.path.join(d, "go.sum"))
 
-    fixed = fixed_cases() + blank_cases() + nested_cases()
+    fixed = fixed_cases() + blank_cases() + nested_cases() + lambda_cases()
     finds = finding_cases()
     cases = fixed + [c for c, _ in finds]
     nfixed = len(cases)
